@@ -3,6 +3,10 @@ package drive
 import (
 	"encoding/json"
 	"fmt"
+	"os"
+	"runtime"
+	"strconv"
+	"strings"
 	"sync/atomic"
 	"time"
 )
@@ -22,7 +26,33 @@ func Watchdog(normal time.Duration) time.Duration {
 	if atomic.LoadInt32(&hangs) >= 3 {
 		return 300 * time.Millisecond
 	}
-	return normal
+	return time.Duration(float64(normal) * loadFactor())
+}
+
+// loadFactor stretches the watchdogs when the machine is overloaded (run
+// queue longer than the number of CPUs): a program that is merely starved of
+// CPU is not a hang. Between 1 and 10.
+func loadFactor() float64 {
+	b, err := os.ReadFile("/proc/loadavg")
+	if err != nil {
+		return 1
+	}
+	f := strings.Fields(string(b))
+	if len(f) == 0 {
+		return 1
+	}
+	l, err := strconv.ParseFloat(f[0], 64)
+	if err != nil {
+		return 1
+	}
+	k := l / float64(runtime.NumCPU())
+	if k < 1 {
+		return 1
+	}
+	if k > 10 {
+		return 10
+	}
+	return k
 }
 
 // NoteHang records a watchdog expiry.
